@@ -4,6 +4,7 @@ import (
 	"github.com/dadrus/heimdall/verif/engine"
 	"github.com/dadrus/heimdall/verif/props/c02"
 	"github.com/dadrus/heimdall/verif/props/c06"
+	"github.com/dadrus/heimdall/verif/props/c07"
 )
 
 func main() {
@@ -12,6 +13,7 @@ func main() {
 	for _, c := range []*engine.Check{
 		c02.Check(),
 		c06.Check(),
+		c07.Check(),
 	} {
 		checks[c.ID] = c
 	}
